@@ -213,6 +213,14 @@ def run(ctx):
                                             or s.startswith('psf_memset(ptr, 0') or s.startswith('psf_close(psf)') or s.startswith('printf(') or s.startswith('snprintf(data, datasize'))]
             ctx.ob('NO-EFFECT', key, not bad, f.loc(f.body), 'rejecting branch of `%s` %s' % (cond[:90], 'has no side effect besides error/log/zero-fill' if not bad else 'has side effects: %s' % bad), None)
 
+    ctx.rule('SEEK-CLEAN', 'every function installed in the seek slot: (a) a rejecting return that is decided by the request or the handle alone (no call in the conditions it runs under) is not reachable '
+             'from a psf_fseek or a store into the codec\'s private state - the invalid call fails cleanly, what is written or read next goes where it would have gone; (b) a call through a function '
+             'pointer kept in the codec\'s private struct is dominated by a test of that pointer unless every allocator of the struct (or the init it calls) assigns it - a handle opened for '
+             'writing has no decoder hook', floor=20)
+    from engine.seekclean import seek_clean
+    n_sc9 = seek_clean(ctx, prog)
+    ctx.require(n_sc9 >= 20, 'only %d seek refusals / hook calls found' % n_sc9)
+
     wrapper_rule(ctx, prog)
 
     # ------------------------------------------------------------------ ERRTABLE
